@@ -1,6 +1,8 @@
 package main
 
 import (
+	"os"
+	"strconv"
 	"fmt"
 	"go/constant"
 	"go/token"
@@ -158,6 +160,7 @@ type Gen struct {
 	trustedUsed map[string]bool
 	sinkRefs    map[string]bool      // identities of byte sinks that exist at entry (io.Writer parameters)
 	clauseBound map[string]bool      // callpre/ghostset/observe clauses that matched at least one call
+	clauseEval  map[string]bool      // callpre clauses that were evaluated (all their names in scope) at some call
 	secReaders  map[string][3]string // *io.SectionReader term -> (ReaderAt identity, offset, length)
 	unmodelled  map[string]bool
 	sideFailed  bool
@@ -179,6 +182,12 @@ type Gen struct {
 
 func newGen(cs *ContractSet, fn *ssa.Function, c *Contract, wrapMode bool) *Gen {
 	g := &Gen{cs: cs, fn: fn, c: c, decls: map[string]string{}, regs: map[ssa.Value]Val{}, heapSort: map[string]string{}, entryHeap: map[string]string{}, mapValKind: map[string]string{}, entryMdom: map[string]string{}, entryMval: map[string]string{}, ufuns: map[string]string{}, lemmaVars: map[string]Val{}, counters: map[string]int{}, paramVals: map[string]Val{}, inlineSet: map[string]bool{}, trustedUsed: map[string]bool{}, unmodelled: map[string]bool{}, entryGhost: map[string]Val{}, specTypes: map[string]types.Type{}}
+	// GOVC_PERTURB=n shifts the numbering of generated symbols (what an unrelated ghost declaration or
+	// contract elsewhere does): the robustness sweep re-runs every check under several shifts, because
+	// an obligation that is decided only under one numbering is a false alarm waiting to happen
+	if n, err := strconv.Atoi(os.Getenv("GOVC_PERTURB")); err == nil {
+		g.fresh = n
+	}
 	g.opaqueStr = c.Opt("opaque_strings") != ""
 	g.arithWrap = wrapMode || c.Opt("arith") == "wrap"
 	for _, n := range c.Inline {
@@ -790,6 +799,27 @@ func (g *Gen) merge(ins []*State) *State {
 			for _, c := range cs {
 				if v := s.cells[c]; v.Kind == "ptr" && v.Cell != nil && (kinds[c]["opaque"] || kinds[c]["err"]) {
 					s.cells[c] = g.tryPromote(s, v)
+				} else if v.Kind == "struct" {
+					// the same for pointer-typed fields of a struct variable (sd.StreamLength = &l on one path)
+					s.cells[c] = g.promoteFieldsFor(s, v, func(path []int) bool {
+						for _, o := range ins {
+							if ov, ok := o.cells[c]; ok && o != s {
+								f := ov
+								okp := true
+								for _, i := range path {
+									if f.Kind != "struct" || i >= len(f.Tup) {
+										okp = false
+										break
+									}
+									f = f.Tup[i]
+								}
+								if okp && (f.Kind == "opaque" || f.Kind == "err") {
+									return true
+								}
+							}
+						}
+						return false
+					}, nil)
 				}
 			}
 		}
@@ -980,4 +1010,32 @@ func sortedKeysB(m map[string]bool) []string {
 	}
 	sort.Strings(ks)
 	return ks
+}
+
+// promoteFieldsFor promotes every pointer-to-local field of struct value v (recursively) for which
+// want(path) holds; it returns the updated struct value.
+func (g *Gen) promoteFieldsFor(st *State, v Val, want func(path []int) bool, path []int) Val {
+	if v.Kind != "struct" {
+		return v
+	}
+	nt := append([]Val{}, v.Tup...)
+	changed := false
+	for i, f := range nt {
+		p := append(append([]int{}, path...), i)
+		switch {
+		case f.Kind == "ptr" && f.Cell != nil && want(p):
+			if nv := g.tryPromote(st, f); nv.Kind != "ptr" {
+				nt[i] = nv
+				changed = true
+			}
+		case f.Kind == "struct":
+			nv := g.promoteFieldsFor(st, f, want, p)
+			nt[i] = nv
+			changed = true
+		}
+	}
+	if changed {
+		v.Tup = nt
+	}
+	return v
 }
